@@ -42,6 +42,20 @@ def option_pool():
     ]
 
 
+def twin_pool():
+    """options of different kinds that agree in every field value (address, protocol, port): only the option type
+    tells them apart on the wire"""
+    v4 = ipaddress.IPv4Address("192.0.2.9")
+    v6 = ipaddress.IPv6Address("2001:db8::9")
+    out = []
+    for proto in (hdr.L4Protocols.UDP, hdr.L4Protocols.TCP):
+        out += [hdr.IPv4EndpointOption(v4, proto, 30509), hdr.IPv4MulticastOption(v4, proto, 30509),
+                hdr.IPv4SDEndpointOption(v4, proto, 30509),
+                hdr.IPv6EndpointOption(v6, proto, 30509), hdr.IPv6MulticastOption(v6, proto, 30509),
+                hdr.IPv6SDEndpointOption(v6, proto, 30509)]
+    return out
+
+
 def to_ref(o):
     if isinstance(o, hdr.SOMEIPSDUnknownOption):
         return ("unknown", o.type, bytes(o.payload))
@@ -247,6 +261,21 @@ def layer3_fields(args):
         n += 1
         for v in check_message([e], FLAGS[n % len(FLAGS)], dict(layer=3, option_kinds=(a, b))):
             viols.append(v)
+    # options that differ in nothing but their kind (or their protocol): in one entry, in two entries of one message,
+    # and in two successive messages
+    twins = twin_pool()
+    for a, b in itertools.permutations(range(len(twins)), 2):
+        base = dict(sd_type=T.OfferService, service_id=1, instance_id=2, major_version=3, ttl=4, minver_or_counter=5)
+        e1 = hdr.SOMEIPSDEntry(**base, options_1=(twins[a],), options_2=(twins[b],))
+        e2 = hdr.SOMEIPSDEntry(**base, options_1=(twins[a], twins[b]))
+        ea = hdr.SOMEIPSDEntry(**base, options_1=(twins[a],))
+        eb = hdr.SOMEIPSDEntry(**dict(base, instance_id=3), options_2=(twins[b],))
+        for ents in ([e1], [e2], [ea, eb], [ea], [eb]):
+            n += 1
+            for v in check_message(ents, FLAGS[n % len(FLAGS)], dict(layer=3, twin_options=(a, b), entries=len(ents))):
+                viols.append(v)
+        if len(viols) > 40:
+            break
     return dict(layer=3, n=n, viols=viols[:30], nviols=len(viols))
 
 
